@@ -103,6 +103,65 @@ def mk_shape(s, numtype="frac"):
     return mk_comp(s, numtype)
 
 
+HISTS = [[("move", (Fraction(-31), Fraction(17)))], [("scale", Fraction(-1))],
+         [("scale", Fraction(1, 3)), ("move", (Fraction(5), Fraction(-2)))],
+         [("move", (Fraction(2), Fraction(9))), ("scale", Fraction(-2))], [("scale", Fraction(5, 2))],
+         [("move", (Fraction(40), Fraction(-25))), ("move", (Fraction(-3), Fraction(1, 2)))]]
+
+
+def map_data(s, f):
+    if s[0] in "EW":
+        return s
+    mj = lambda j: [[f(p) for p in sg] for sg in j]
+    mc = lambda c: ("S", mj(c[1])) if c[0] == "S" else ("C", [mj(j) for j in c[1]])
+    return ("D", [mc(c) for c in s[1]]) if s[0] == "D" else mc(s)
+
+
+def warm(S):
+    """read-only questions that make the library compute (and possibly memoise) boxes, signed lengths, areas,
+    winding data: nothing here may change S"""
+    if isinstance(S, (EmptyShape, WholeShape)):
+        return
+    def q():
+        b = S.box()
+        float(S)
+        IntegrateShape.polynomial(S, 1, 0)
+        for J in S.jordans:
+            J.box()
+            float(J)
+            v = J.vertices[0]
+            (v[0], v[1]) in S
+            J in S
+        S == S
+        probe = Primitive.square(1, center=(float(S.jordans[0].vertices[0][0]) + 100, 0))
+        probe in S
+        S in probe
+    outcome(q)
+
+
+def mk_shape_hist(s, k=0):
+    """the library object for exact shape data s, reached through a history: built elsewhere (displaced / at another
+    size / point-reflected), questioned there (warm), then brought into place by the library's own in-place move /
+    scale, questioned again after every step.  Exact on Fractions; the final coordinates are those of s."""
+    if s[0] in "EW":
+        return mk_shape(s)
+    steps = HISTS[k % len(HISTS)]
+    inv = []
+    for name, arg in reversed(steps):
+        inv.append((lambda d: (lambda q: (q[0] - d[0], q[1] - d[1])))(arg) if name == "move" else (lambda c: (lambda q: (q[0] / c, q[1] / c)))(arg))
+    data = s
+    for f in inv:
+        data = map_data(data, f)
+    S = mk_shape(data, "frac")
+    for name, arg in steps:
+        warm(S)
+        if name == "move":
+            S.move(arg)
+        else:
+            S.scale(arg, arg)
+    return S
+
+
 def kind_of(exc):
     for cls, name in ((AssertionError, "Assertion"), (ValueError, "Value"), (TypeError, "Type"),
                       (IndexError, "Index"), (ZeroDivisionError, "ZeroDivision")):
